@@ -25,10 +25,14 @@
        downstream packets; a frozen carrier is noticed by the client only
        through the staleness timer (StaleClose).
 
-   Deviation constant AsIs_D15 (DESIGN 7, D15): as the code is, a failed
-   token/ClientID write on a freshly popped peer makes dialContext return the
-   error, which closes the RedialPacketConn for good (dead[s]).  With
-   AsIs_D15 = FALSE the failed peer is closed and the next one is popped.
+   D15 (DESIGN 7): in the pinned code a failed token/ClientID write on a
+   freshly popped peer made dialContext return the error, which closed the
+   RedialPacketConn for good (dead[s]); TLC found Pop -> Cut -> WriteIdFails ->
+   dead as a violation of EventuallyDelivered by itself and the system rig
+   reproduced it on the real client.  It is repaired in /repo (95c9a77: the
+   failed peer is closed and the next one is popped), so the deviation
+   constant is gone and WriteIdFails is the repaired step; dead[s] remains as
+   the observable "the redial layer surfaced an error" (NeverDead).
 
    Don't care: which packets are lost, how often a segment is retransmitted,
    the order in which segments are sent, what a half-open carrier swallows. *)
@@ -38,8 +42,7 @@ CONSTANTS
   Sessions,    \* e.g. {"A"} or {"A", "B"}
   Carriers,    \* 1..K: proxies the broker can ever hand out
   NUp, NDown,  \* segments written per session, upstream / downstream
-  MaxFaults,   \* bound on environment faults
-  AsIs_D15     \* BOOLEAN: model the pinned code (TRUE) or the repaired one (FALSE)
+  MaxFaults    \* bound on environment faults
 
 None == "none"
 Segs(n) == 1..n
@@ -109,8 +112,7 @@ WriteId(s, k) ==
 WriteIdFails(s, k) ==
   /\ car[k] = "popped" /\ owner[k] = s /\ broken[k]
   /\ car' = [car EXCEPT ![k] = "dead"]
-  /\ dead' = [dead EXCEPT ![s] = AsIs_D15]
-  /\ UNCHANGED <<owner, broken, att, cur, csend, up, outQ, down, rcvU, rcvD, acc, nf>>
+  /\ UNCHANGED <<owner, broken, att, cur, dead, csend, up, outQ, down, rcvU, rcvD, acc, nf>>
 
 (* WebRTCPeer.checkForStaleness: nothing received for the timeout. *)
 StaleClose(s) ==
@@ -259,13 +261,12 @@ OneAcceptPerSession == \A s \in Sessions : acc[s] <= 1
 (* The redial layer exchanges on at most one carrier and only on one it popped. *)
 OneCurrent ==
   \A s \in Sessions : cur[s] # 0 => owner[cur[s]] = s /\ car[cur[s]] \in {"live", "frozen"}
-(* The redial layer closes for good only when dialContext failed (D15 as the
-   code is; never in the repaired model). *)
-DeadOnlyByD15 == \A s \in Sessions : dead[s] => AsIs_D15
+(* The redial layer never closes for good while the session has work (it
+   would only do so when dialContext fails: Pop after End, not modelled). *)
+NeverDead == \A s \in Sessions : ~dead[s]
 
 (* Liveness half: with bounded faults and one more carrier than faults every
    byte written is eventually read, in both directions. *)
 Delivered == \A s \in Sessions : DeliveredUp(s) = NUp /\ DeliveredDown(s) = NDown /\ acc[s] = 1
 EventuallyDelivered == <>Delivered
-NeverDead == \A s \in Sessions : ~dead[s]
 =============================================================================
